@@ -406,6 +406,31 @@ def canon_infoset(dt, items):
     return " ".join(out)
 
 
+def tree_size(roots):
+    """size_t of Proofs/EncXmlSize.v: bytes of names, attribute names / values and text + nodes + attributes"""
+    n = 0
+    for x in roots:
+        n += 1
+        if x.kind == "E":
+            n += len(name_bytes(x.name)) if x.name[0] != "n" else 0
+            for an, v in x.attrs:
+                nb = an[2] if an[0] == "t" else (cstr(an[1]) if an[0] == "l" else b"")
+                n += 1 + len(nb) + len(cstr(v or b""))
+        elif x.kind == "T":
+            n += len(x.text or b"")
+        elif x.kind == "S":
+            n += tree_size(x.sub[1])
+        n += tree_size(x.children)
+    return n
+
+
+def size_bound(T, lang, roots, gen_type, indent):
+    """C01x_xml_size with K = 54 (C01x_namespace_bound)"""
+    hb = 47 + len(lang["root"] or "") + len(lang["dtd"] or "") + len(lang["pub_text"] or "")
+    w = (indent % 256) if gen_type == 1 else 1
+    return hb + tree_size(roots) * (54 + 33 + 510 * w)
+
+
 def judge(T, dump_toks, gen_type, keep_ws, xml_bytes):
     """Returns (verdict, details): verdict in {'ok', 'skip', 'fail'}"""
     lid, roots = parse_dump(dump_toks)
@@ -571,6 +596,7 @@ def run(ctx):
     model = {i: m for i, m in zip(midx, ma)}
 
     concrete, corr, pending_hits = [], [], {}
+    size_bad, nsize = [], 0
     shape_count = {}
     kinds, verdicts, skipwhy = {}, {}, {}
     nontrivial = set()
@@ -604,6 +630,14 @@ def run(ctx):
             continue
         xml_bytes = b"" if chex == "-" else bytes.fromhex(chex)
         toks = dump.split()
+        # size theorem (C01x_xml_size, Proofs/EncXmlSize.v) on the C's output
+        lid0, roots0 = parse_dump(toks)
+        lang0 = [l for l in T["langs"] if l["id"] == lid0]
+        if lang0:
+            nsize += 1
+            if len(xml_bytes) > size_bound(T, lang0[0], roots0, g, ind):
+                size_bad.append({"wbxml": c["doc"].hex(), "forced": c["forced"], "mode": [g, ind], "keep_ws": kw,
+                                 "length": len(xml_bytes), "bound": size_bound(T, lang0[0], roots0, g, ind)})
         v, det = judge(T, toks, g, kw, xml_bytes)
         verdicts[v] = verdicts.get(v, 0) + 1
         if g == 0 and kw == 0:
@@ -673,6 +707,8 @@ def run(ctx):
         "theorem_spec_vs_pyexpat_compared": nspec,
         "theorem_spec_vs_pyexpat_disagreements": len(spec_bad),
         "shapes_reached": shape_count,
+        "size_bound_checked": nsize,
+        "size_bound_exceeded": len(size_bad),
         "pending_findings": {k: len(v) for k, v in pending_hits.items()},
     })
 
@@ -691,8 +727,10 @@ def run(ctx):
     if read_bad:
         ctx.violation("reader-model-vs-pyexpat", {"broken": "Model/XmlRead.v read_xml disagrees with pyexpat on output of the C", "first_cases": read_bad[:3]},
                       found_input=False)
+    for v in size_bad[:1]:
+        ctx.violation("c-exceeds-size-bound", {"broken": "output longer than the bound of C01x_xml_size (Proofs/EncXmlSize.v)", "kind": "size-bound", **v})
     if spec_bad:
-        ctx.violation("theorem-spec-vs-pyexpat", {"broken": "the infoset specified by info_g (Proofs/EncXmlIndent.v) under node_ok differs from what pyexpat reads in the C's output",
+        ctx.violation("theorem-spec-vs-pyexpat", {"broken": "the infoset specified by info_e (Proofs/EncXmlEol.v) under node_ok_e differs from what pyexpat reads in the C's output",
                                                   "first_cases": spec_bad[:3]}, found_input=False)
     if not concrete:
         if proof_broken:
